@@ -420,14 +420,17 @@ PROPS = {
             'value ending with a blank; that the substitution is requested for that alias at the position of that token, once; and that every '
             'other token is handed back unchanged with the input untouched. Source::is_alias_for (yash-env/src/source.rs), the recursion '
             'guard, is proved equal to "the name is among the aliases in the chain of origins of this code" for chains of every depth '
-            '(structural recursion through Rc). NOT decided: termination and the resulting token sequence (they need the in-place splice of '
+            '(structural recursion through Rc). LexerCore::is_after_blank_ending_alias, the third alternative of the eligibility test, is '
+            'proved (loop invariant over the line buffer) to answer exactly: going back from the token over blanks and line continuations '
+            'only, one reaches the last character of the replacement text of an alias whose value ends with a blank (the character after it '
+            'no longer comes from that alias). NOT decided: termination and the resulting token sequence (they need the in-place splice of '
             'LexerCore::substitute_alias - that the replacement text carries the alias in its origin chain - and the Rec::AliasSubstituted '
-            'restart protocol of the async parser), is_after_blank_ending_alias (uninterpreted here), recognition of reserved words and '
-            'operators in replacement text, the alias / unalias built-ins.'),
+            'restart protocol of the async parser), recognition of reserved words and operators in replacement text, the alias / unalias '
+            'built-ins.'),
         'trusted_base': ['Verus 0.2026.09.13 + Z3', '/verif/tools/vextract.py'],
         'assumptions': [
             'the glossary is a ghost map name -> alias behind a model trait (look_up answers the map; is_empty implies an empty map); `&dyn Glossary` is checked as a generic parameter (impl header replaced)',
-            'Word::to_string_if_literal, Lexer::is_after_blank_ending_alias and Lexer::substitute_alias are external_body: the first two answer uninterpreted views, the third is recorded in a ghost log',
+            'Word::to_string_if_literal and Lexer::substitute_alias are external_body: the first answers an uninterpreted view, the second is recorded in a ghost log; LexerCore is reduced to its line buffer; is_blank and "the text ends with a blank" are uninterpreted predicates on characters / strings; Option::is_some_and has an assumed contract; `for i in (0..n).rev()` is checked as a while loop counting down; `ref` binding on a dereferenced Rc is checked as a pattern on the reference',
             'Location / Code / Source are reduced models (Source: the Alias variant and one variant for every other origin); String == &str compares the characters (helper verif_name_eq)',
             'the let-chain of substitute_alias is checked as nested ifs (rewrite rule let-chain-nest)',
         ],
